@@ -116,6 +116,8 @@ impl<'a, 'b> Generator<'a, 'b> {
                 IR::Neg(t, a) => ii!(self, t, "(-{})", a),
 
                 IR::Str(t, s) => iis!(self, t, "\"{}\"", s),
+                // Lua has no literal for infinity: a literal beyond the largest float is one.
+                IR::Float(t, f) if f.is_infinite() => iis!(self, t, "(1/0)"),
                 IR::Float(t, f) => iis!(self, t, "{:?}", f),
 
                 IR::Equals(t, a, b) => ii!(self, t, "({} == {})", a, b),
